@@ -89,7 +89,7 @@ class Check:
                             fh.write(common.jdump(row) + '\n')
                     files.append((fn, len(batch), '../Judge%s.tla' % kind))
             with cf.ThreadPoolExecutor(max_workers=len(files)) as ex:
-                futs = [ex.submit(tlc.run, mod, 'Judge.cfg', workers=1, env={'TRACE_FILE': fn}, heap='3g', timeout=timeout)
+                futs = [ex.submit(tlc.run, mod, 'Judge.cfg', workers=1, env={'TRACE_FILE': fn}, heap='2g', timeout=timeout)
                         for fn, _, mod in files]
                 for (fn, n, mod), fu in zip(files, futs):
                     r = fu.result()
@@ -140,7 +140,7 @@ class Check:
                 files.append((fn, len(part)))
             verdicts, skipped = [], 0
             with cf.ThreadPoolExecutor(max_workers=len(files)) as ex:
-                futs = [ex.submit(tlc.run, '../FxpTrace.tla', 'FxpTrace.cfg', workers=1, env={'TRACE_FILE': fn}, heap='3g', timeout=timeout)
+                futs = [ex.submit(tlc.run, '../FxpTrace.tla', 'FxpTrace.cfg', workers=1, env={'TRACE_FILE': fn}, heap='2g', timeout=timeout)
                         for fn, _ in files]
                 for (fn, n), fu in zip(files, futs):
                     r = fu.result()
